@@ -108,7 +108,7 @@ pub fn execute_mode(
 ) -> RunResult {
     let stale0 = stale_reads();
     let mut w = World::new(reg, anchors, cfg.clone(), canary);
-    w.deferred = cold;
+    w.deferred = cold || w.cfg_deferred;
     w.trace = std::env::var_os("VERIF_TRACE_OPS").is_some();
     let mut violation = None;
     let mut created = 0u64;
@@ -132,7 +132,7 @@ pub fn execute_mode(
         }
     }
     let records = if cold { w.pending_records() } else { Vec::new() };
-    if cold && violation.is_none() {
+    if w.deferred && violation.is_none() {
         w.drop_all();
         if let Some(v) = w.settle() {
             if known.matches(&v).is_some() || !target.map(|t| v.concerns(t)).unwrap_or(true) {
@@ -183,7 +183,7 @@ pub fn run_one_full(reg: &Registry, anchors: &Anchors, prop: Prop, seed: u64, kn
     let mut rng = Prng::new(seed);
     let pl = plan_limited(reg, prop, &mut rng, lim);
     let mut w = World::new(reg, anchors, pl.cfg.clone(), seed);
-    w.deferred = cold;
+    w.deferred = cold || w.cfg_deferred;
     w.trace = trace;
     if trace {
         println!("@env {}", pl.cfg.to_json(reg));
@@ -215,7 +215,7 @@ pub fn run_one_full(reg: &Registry, anchors: &Anchors, prop: Prop, seed: u64, kn
         }
     }
     let records = if cold { w.pending_records() } else { Vec::new() };
-    if cold && violation.is_none() {
+    if w.deferred && violation.is_none() {
         w.drop_all();
         if let Some(v) = w.settle() {
             if known.matches(&v).is_some() || !v.concerns(prop.name()) {
@@ -418,7 +418,21 @@ pub fn shrink_with(r: &RunResult, target: &str, exec: &mut dyn FnMut(&RunCfg, &[
 // ---------------------------------------------------------------------------
 // replay files
 
+/// which build of the simulator this process is ("" = the default build; "tf" = the one compiled with the host's
+/// SIMD target features enabled at compile time): replay files name it so that they are replayed by the same build
+pub fn build_label() -> String {
+    std::env::var("VERIF_BUILD_LABEL").unwrap_or_default()
+}
+
 pub fn replay_json(reg: &Registry, prop: &str, seed: u64, cfg: &RunCfg, ops: &[Op], v: &Violation, extra: Value) -> Value {
+    let mut j = replay_json_inner(reg, prop, seed, cfg, ops, v, extra);
+    if !build_label().is_empty() {
+        j["build"] = json!(build_label());
+    }
+    j
+}
+
+fn replay_json_inner(reg: &Registry, prop: &str, seed: u64, cfg: &RunCfg, ops: &[Op], v: &Violation, extra: Value) -> Value {
     json!({
         "format": "block-ciphers-sim-replay/1",
         "property": prop,
@@ -684,7 +698,7 @@ pub fn grid_cases(reg: &Registry, prop: Prop, seed: u64) -> Vec<GridCase> {
             let mut variants = std::collections::BTreeMap::new();
             variants.insert(f, all.clone());
             let ci_strict = (f % 2 == 0) ^ mask;
-            let cfg = RunCfg { variants, mask, tasks: 1, strict_arena: ci_strict };
+            let cfg = RunCfg { variants, mask, tasks: 1, strict_arena: ci_strict, deferred: false };
             for &klen in fam.key_lens.iter() {
                 if prop != Prop::C03 && klen != fam.key_lens[0] && klen != *fam.key_lens.last().unwrap() {
                     continue;
@@ -817,7 +831,7 @@ pub fn target_grid_case(reg: &Registry, fam_name: &str, variant: &str, par: usiz
     let mut rng = Prng::new(seed ^ 0x7A26E7);
     let mut variants = std::collections::BTreeMap::new();
     variants.insert(f, vec![vidx]);
-    let cfg = RunCfg { variants, mask, tasks: 1, strict_arena: false };
+    let cfg = RunCfg { variants, mask, tasks: 1, strict_arena: false, deferred: false };
     let bs = fam.block;
     let maxn = (crate::workload::REGION * 2 - 64) / 2 / bs;
     let mut ops = vec![Op::New { id: 1, task: 0, fam: f, role: Role::Both, key: rng.bytes(fam.key_size), fixed: false }];
@@ -1004,7 +1018,7 @@ pub fn target_route_case(reg: &Registry, fam_name: &str, variant: &str, mask: bo
     let mut rng = Prng::new(seed ^ 0x207E5);
     let mut variants = std::collections::BTreeMap::new();
     variants.insert(f, vec![vidx]);
-    let cfg = RunCfg { variants, mask, tasks: 1, strict_arena: false };
+    let cfg = RunCfg { variants, mask, tasks: 1, strict_arena: false, deferred: false };
     let bs = fam.block;
     let key = rng.bytes(fam.key_size);
     let key2 = rng.bytes(fam.key_size);
@@ -1074,7 +1088,7 @@ pub fn target_sweep_case(reg: &Registry, fam_name: &str, seed: u64, only_variant
     }
     let mut variants = std::collections::BTreeMap::new();
     variants.insert(f, vs);
-    let cfg = RunCfg { variants, mask: false, tasks: 1, strict_arena: false };
+    let cfg = RunCfg { variants, mask: false, tasks: 1, strict_arena: false, deferred: false };
     let bs = fam.block;
     let klen = *rng.pick(&fam.key_lens);
     let key = rng.bytes(klen);
